@@ -328,6 +328,26 @@ def expected_color(ds, case, opts, values, coo_values, string_z):
     return [cmap(norm(v)) for v in values]
 
 
+def grid_labels(key, ax, ir, iq, nr, nq):
+    """column titles sit on the top row only, row labels on the right-most
+    column only; no other panel carries a coordinate of the grid"""
+    vio = []
+    want = "q = %s" % QV[iq] if (ir == 0 and nq == 2) else ""
+    if ax.get_title() != want:
+        vio.append((key("panel-title"), "panel (%d,%d) titled %r, "
+                    "expected %r" % (ir, iq, ax.get_title(), want)))
+    lab = ax.get_ylabel()
+    if nr == 2 and iq == nq - 1:
+        want = "r = %s" % RV[ir]
+        if lab != want:
+            vio.append((key("panel-rowlabel"), "panel (%d,%d) labelled "
+                        "%r, expected %r" % (ir, iq, lab, want)))
+    elif lab.startswith("r = ") or lab.startswith("q = "):
+        vio.append((key("panel-rowlabel"), "panel (%d,%d) labelled %r"
+                    % (ir, iq, lab)))
+    return vio
+
+
 def check_lines(case):
     import numpy as np
     import xyzpy as xyz
@@ -407,17 +427,8 @@ def check_lines(case):
     for ir in range(nr):
         for iq in range(nq):
             ax = axes[ir * nq + iq]
-            if grid and ir == 0 and nq == 2:
-                want = "q = %s" % QV[iq]
-                if ax.get_title() != want:
-                    vio.append((key("panel-title"), "panel (%d,%d) titled %r, "
-                                "expected %r" % (ir, iq, ax.get_title(), want)))
-            if grid and nr == 2 and iq == nq - 1:
-                want = "r = %s" % RV[ir]
-                if ax.get_ylabel() != want:
-                    vio.append((key("panel-rowlabel"), "panel (%d,%d) labelled "
-                                "%r, expected %r" % (ir, iq, ax.get_ylabel(),
-                                                     want)))
+            if grid:
+                vio += grid_labels(key, ax, ir, iq, nr, nq)
             # drawn series
             if kind == "lineplot":
                 if variant == "yerr":
@@ -749,6 +760,8 @@ def check_heat(case):
             ax = axes[ir * nq + iq]
             meshes = [c for c in ax.collections
                       if type(c).__name__ == "QuadMesh"]
+            if grid:
+                vio += grid_labels(key, ax, ir, iq, nr, nq)
             if len(meshes) != 1:
                 vio.append((key("mesh-count"), "%d meshes" % len(meshes)))
                 continue
